@@ -7,6 +7,113 @@ from .rt import is_call, calls, idx
 LEVEL = "other"
 
 
+def _names(t, name):
+    """the term mentions a field / captured variable / variable called `name` (`path.parents`, `.children`, ..)"""
+    def p(x):
+        if not isinstance(x, tuple) or not x:
+            return False
+        if x[0] == "field":
+            return x[2] == name
+        if x[0] == "vfield":
+            return str(x[3]) == name
+        if x[0] in ("upvar", "var", "param"):
+            return str(x[1]) == name or str(x[1]).endswith("." + name)
+        return False
+    return mir.contains(t, p)
+
+
+IDENTITY_CALLS = ("Rc::ptr_eq", "Rc::<T, A>::ptr_eq", "PartialEq::eq", "PartialEq::ne", "Arc::ptr_eq")
+
+
+def _elementwise_identity(F, clo):
+    """+1: the closure answers `a is b` for the pair it is given (Rc::ptr_eq / ==), -1: the negation, None: something else"""
+    fn = F.fns.get(clo[1]) if isinstance(clo, tuple) and clo[0] == "closure" else None
+    if fn is None or not fn.has_body():
+        return None
+    rets = [e[1] for q in Sim(fn, F).run() for e in q.events if e[0] == "return"]
+    if len(rets) != 1:
+        return None
+    t, sign = rets[0], 1
+    while isinstance(t, tuple) and t[0] == "un" and t[1] == "Not":
+        t, sign = t[2], -sign
+    if not (isinstance(t, tuple) and t[0] == "call" and len(t[2]) == 2):
+        return None
+    nm = mir.strip_generics(t[1])
+    if nm.endswith("ptr_eq") or nm.endswith("PartialEq::eq") or nm.endswith(">::eq"):
+        pass
+    elif nm.endswith("PartialEq::ne") or nm.endswith(">::ne"):
+        sign = -sign
+    else:
+        return None
+    # both sides come from the closure's own argument (the pair), and they are different components of it
+    a, b = t[2]
+    if a == b or not all(mir.contains(x, lambda y: isinstance(y, tuple) and y[0] == "param") for x in (a, b)):
+        return None
+    return sign
+
+
+def prefix_identity(F, t, v):
+    """True when the path condition `t == v` says: the children of the reduction path and the children of the stored
+    solution are THE SAME edges as far as both go (element-wise Rc identity over the zipped sequences, or an equality of
+    the two sequences cut to the same length). False when it says they differ. None: not such a condition."""
+    if not (isinstance(t, tuple) and t[0] == "call") or v not in (0, 1):
+        return None
+    nm = mir.strip_generics(t[1]).rsplit("::", 1)[-1]
+    if nm in ("all", "any") and len(t[2]) == 2:
+        recv, clo = t[2]
+        if not (_names(recv, "parents") and _names(recv, "children") and mir.has_call(recv, "zip")):
+            return None
+        sg = _elementwise_identity(F, clo)
+        if sg is None:
+            return None
+        if nm == "all":
+            # all(same): true = identical, false = they differ; all(differs) taken: no pair is shared
+            return (v == 1) if sg == 1 else (False if v == 1 else None)
+        # any(differs): false = identical, true = they differ; any(same) not taken: no pair is shared
+        return (v == 0) if sg == -1 else (False if v == 0 else None)
+    if nm in ("eq", "ne") and len(t[2]) == 2:
+        a, b = t[2]
+        if (_names(a, "parents") and _names(b, "children")) or (_names(b, "parents") and _names(a, "children")):
+            # whole-sequence comparison: a prefix comparison only if one side was cut (take / range / truncate)
+            if any(mir.has_call(x, k) for x in (a, b) for k in ("take", "Index::index", "range", "get")):
+                return (v == 1) == (nm == "eq")
+        return None
+    return None
+
+
+def _unread_conditions(prior, about_prod):
+    """conditions between the possibilities scan and the replacement that this rule cannot read (a helper's answer, an index
+    loop): with one of them on the path the absence of a readable identity test proves nothing"""
+    # from the last `next()` of the scan on
+    start = 0
+    for i, c in enumerate(prior):
+        if isinstance(c[1], tuple) and c[1][0] == "discr" and mir.has_call(c[1], "Iterator::next") and mir.has_call(c[1], "iter_mut"):
+            start = i
+    unread = []
+    for c in prior[start:]:
+        t = c[1]
+        if not isinstance(t, tuple):
+            continue
+        if t[0] == "discr" or about_prod(c):
+            continue
+        if t[0] == "bin" and all(mir.has_call(x, "len") or (isinstance(x, tuple) and x[0] == "const") for x in (t[2], t[3])):
+            continue
+        if mir.is_log(t) if hasattr(mir, "is_log") and isinstance(t, dict) else False:
+            continue
+        unread.append(t)
+    return unread
+
+
+def identity_anywhere(F, fns):
+    """some comparison of edge identity is made at all in these functions (used to tell 'missing' from 'not recognised')"""
+    for f in fns:
+        for _, tm in f.calls():
+            nm = mir.strip_generics(callee(tm) or "")
+            if nm.endswith("ptr_eq"):
+                return True
+    return False
+
+
 def run(ctx, res):
     F = ctx.facts("core")
     # R2 shifted heads merge on (state, position)
@@ -185,8 +292,9 @@ def run(ctx, res):
     if okw:
         res.ok(rid3, "walk/initial", fr.loc(), "left_to_go = length - 1 from the start edge")
     # R6 SPPF node label: children of an existing solution are replaced only when it carries the reduction's production
-    rid6 = res.rule("C03-R6", "the children of an existing SPPF solution are replaced (right-nulled extension) only if that solution "
-                    "is labelled with the production being reduced and the new path is longer", floor=1)
+    rid6 = res.rule("C03-R6", "a reduction path is merged into an existing SPPF solution (dropped as known, or its longer children "
+                    "replacing the right-nulled ones) only if that solution is labelled with the production being reduced AND the "
+                    "two share their children (edge identity over the common prefix), and only a longer path replaces", floor=2)
     nst = 0
     # the loop that scans the possibilities of the edge: the innermost loop around the statement that stores the new children
     from . import tbl
@@ -229,24 +337,83 @@ def run(ctx, res):
                     # op is now `parents op children`
                     return {("Gt", 1): 1, ("Le", 0): 1, ("Gt", 0): 0, ("Le", 1): 0, ("Lt", 1): 0, ("Ge", 0): 0}.get((op, v))
                 longer = [(c[0], c[1], longer_of(c)) for c in prior if longer_of(c) is not None]
-                # ... and exactly ONE solution is extended: after the replacement the scan over the possibilities is left
-                # (the path does not go round that loop again; the remaining solutions of the edge keep their children)
-                again = poss_header is not None and ("backedge", poss_header) in p.events[i + 1:]
-                if eqs and eqs[-1][2] == 1 and longer and longer[-1][2] == 1 and again:
-                    res.violation(rid6, "replace-children", "after the children of one solution were replaced the scan goes on over the "
-                                  "other possibilities of the edge: every shorter solution of that production is overwritten with the "
-                                  "same children (duplicate trees, lost trees)", r.loc())
-                elif eqs and eqs[-1][2] == 1 and longer and longer[-1][2] == 1:
-                    res.ok(rid6, "replace-children", r.loc(), "prod == production && path longer")
-                else:
+                # ... and it is THAT derivation: the stored children and the path are the same edges as far as both go. Same
+                # production and a different length alone also holds for a different derivation over the same edge
+                # (`S: a S B C` with B, C nullable: [a, S(1..4)] against [a, S(1..3), B(3..4)]) - the path would be taken
+                # for known and dropped, or overwrite the wrong solution.
+                ident = [prefix_identity(F, c[1], c[2]) for c in prior]
+                ident = [x for x in ident if x is not None]
+                if not (eqs and eqs[-1][2] == 1 and longer and longer[-1][2] == 1):
                     res.violation(rid6, "replace-children", "the children of an existing solution are overwritten without checking that the "
                                   "solution is labelled with the production being reduced (same production: %s, longer: %s): a node "
                                   "`X: B` can end up with the children of `X: B C`" % (bool(eqs and eqs[-1][2] == 1), bool(longer and longer[-1][2] == 1)), r.loc())
+                elif ident and ident[-1]:
+                    res.ok(rid6, "replace-children", r.loc(), "prod == production && path longer && shared children identical")
+                elif ident or not identity_anywhere(F, [r] + F.all_nested_closures(r)) or not _unread_conditions(prior, about_prod):
+                    res.violation(rid6, "replace-children", "the children of an existing solution are overwritten by a longer path of the same "
+                                  "production without checking that the two share their children (edge identity over the common "
+                                  "prefix): a different derivation over the same edge is overwritten - lost and duplicated trees", r.loc())
+                else:
+                    res.undecided(rid6, "the reducer compares edge identities, but not in a form this rule reads on the path to the "
+                                  "replacement of a solution's children (zip + all(Rc::ptr_eq) and its variants are read)", r.loc())
                 break
         if nst:
             break
     if not nst:
         res.anchor_lost(rid6, "replacement of a solution's children not found in the reducer", r.loc())
+    # ... the same for the decision that a path is NOT a new solution (it is dropped or merged): only for the same production
+    # AND shared children. The decision is the closure given to all()/any() over the edge's possibilities.
+    scans = []
+    for b, tm in r.calls():
+        nm = mir.strip_generics(callee(tm) or "").rsplit("::", 1)[-1]
+        if nm in ("all", "any") and len(tm["args"]) == 2:
+            recv, clo = tbr.operand(tm["args"][0]), tbr.operand(tm["args"][1])
+            src = recv
+            while isinstance(src, tuple) and src[0] == "call" and src[2]:
+                src = src[2][0]            # iter(deref(borrow(x.possibilities))) -> x.possibilities
+            if isinstance(src, tuple) and src[0] == "field" and src[2] == "possibilities" and isinstance(clo, tuple) \
+                    and clo[0] == "closure" and clo[1] in F.fns:
+                scans.append((nm, F.fns[clo[1]]))
+    if len(scans) != 1:
+        res.undecided(rid6, "the scan over the possibilities of the edge that decides `is this path a new solution` was not found "
+                      "as one all()/any() with a closure (%d found)" % len(scans), r.loc())
+    else:
+        nm, clo = scans[0]
+        known_when = 0 if nm == "all" else 1        # all(|t| differs): false = a known one was met; any(|t| same): true
+        verdicts = []
+        for q in Sim(clo, F).run():
+            rets = [e[1] for e in q.events if e[0] == "return"]
+            if len(rets) != 1:
+                continue
+            conds = [(c[1], c[2]) for c in q.events if c[0] == "cond"]
+            if not any(t[0] == "discr" and v == frozenset(["NonTerm"]) for t, v in conds if isinstance(t, tuple)):
+                continue            # Term / Empty possibilities: not this rule's business
+            t, want = rets[0], known_when
+            while isinstance(t, tuple) and t[0] == "un" and t[1] == "Not":
+                t, want = t[2], 1 - want
+            if isinstance(t, tuple) and t[0] == "const":
+                if t[1] != want:
+                    continue        # this path answers `not the known one`
+            else:
+                conds.append((t, want))
+            def about_prod2(t, v):
+                return isinstance(t, tuple) and t[0] == "call" and (mir.call_matches(t[1], "PartialEq::eq") or mir.call_matches(t[1], "PartialEq::ne")) \
+                    and any(_names(a, "prod") for a in t[2]) and any(_names(a, "production") for a in t[2]) and v in (0, 1)
+            same_prod = [(v == 1) == mir.call_matches(t[1], "PartialEq::eq") for t, v in conds if about_prod2(t, v)]
+            ident = [x for x in (prefix_identity(F, t, v) for t, v in conds) if x is not None]
+            verdicts.append((bool(same_prod and same_prod[-1]), (ident[-1] if ident else None)))
+        if not verdicts:
+            res.undecided(rid6, "no path of the possibilities scan answers `known solution` for a NonTerm possibility", clo.loc())
+        elif all(sp and idn for sp, idn in verdicts):
+            res.ok(rid6, "known-solution", clo.loc(), "%d path(s): same production and shared children identical" % len(verdicts))
+        elif any(idn is None for sp, idn in verdicts) and identity_anywhere(F, [r] + F.all_nested_closures(r)) and \
+                all(sp for sp, idn in verdicts) and not any(idn is False for sp, idn in verdicts):
+            res.undecided(rid6, "the possibilities scan compares edge identities in a form this rule does not read", clo.loc())
+        else:
+            res.violation(rid6, "known-solution", "a reduction path is taken for an already known solution (and dropped, or merged into "
+                          "it) because the edge has a solution of the same production with another number of children, without "
+                          "comparing the children they share: distinct derivations over one edge are lost "
+                          "(S: a S B C | EMPTY; B: b B | EMPTY; C: c | EMPTY on `aabb` gives 2 of 3 trees)", clo.loc())
     # R4 collection
     rid4 = res.rule("C03-R4", "heads are accepted only on Action::Accept; the forest takes every possibility of every back edge of every "
                     "accepted head; Ok(forest) iff a head was accepted", floor=3)
